@@ -286,25 +286,25 @@ for _pid, _old, _new in AMEND:
 
 # what the last rounds added to every driver (appended to the claims; DESIGN.md section 8.6 has the history)
 APPEND = {
-    "C01": "Records also as int64 / int32 / int16 / int8 / uint8 counts and float32, through all three entry points. Repeated calls after the caller overwrote the series returned earlier (object with its own periods, periods passed, module function).",
-    "C03": "Narrow-integer count records containing the type's most negative count on both sides of 6 dt (PgaBelow6dt). Used objects: spectra read lazily, then the generator called with min_dt_ratio only (the step rule of that call applies).",
-    "C04": "Cluster sessions (Trace_ClusterObj): reads of the components' derived quantities after the cluster replaced their values (time_match, same_start, combine_motions, component changes). Value sessions: every baseline correction, filter and detrending step also carries the record left by the same call on a freshly constructed object (clause Havoc_<op>_history: what an operation does may not depend on earlier reads), incl. timezone forms. Settings pairs: every ordered pair of 11 / 15 forms of changing smoothing frequencies / response periods (same-count arrays incl. the default count, by-range forms, in-place edits, generator keywords) with everything read before, between and after. Value sessions also read s_d / s_a lazily per period (clause Read_response_spectrum: the spectra of the model's record under the refinement rule, Spectra.ObjectSpectrumOK) around response-period changes.",
-    "C05": "Ownership model also has the caller writing into a returned time axis and the windowed (timezone) residual correction; the observable digest covers about 160 entries incl. results changed in place.",
-    "C06": "Dominant period also for records in extreme units (2^-560 .. 2^520: squares leave the double range, the spec's modulus is hypot).",
-    "C07": "Spectra on the caller's own axes (octave bands, log-spaced with ratio > 2, irregular, no zero bin) and whole-number targets held in integer types, array level and setter. Object histories: the generator called again with other targets of the same count / another bandwidth / after the record changed.",
-    "C08": "Records as int8 / int16 / int32 / uint8 counts incl. the type's most negative count (PeakIsMaxAbs); magnitudes 2^-560 .. 2^520. Records held in single / half precision riding on an offset.",
-    "C09": "Records as narrow-integer counts incl. the type's most negative count; the deprecated object-level generator with history; exact monotonicity. Standardised CAV with the statement's samples per second and windows (round(1/dt), (n-1)//pps) incl. rates whose reciprocal falls just below a whole number (1/93 .. 1/490); used objects for every second standardised-CAV event.",
-    "C10": "Narrow-integer counts with the most negative count bracketing the motion; weak-motion records (1e-9 .. 1e-4); a 'no duration' answer without raising is validated like the IndexError (RaisesOnlyIfEmpty); non-monotone user measures. float32 / float16 records whose bracketing samples equal the threshold rounded to the record's type.",
-    "C11": "Cleaned-array entry point on full-range int8 / uint8 / int16 / uint16 plateau-free counts; signal-level wrapper on objects that held another record before. Records in extremely small units (1e-170 .. 1e-300: products of neighbouring steps underflow).",
-    "C12": "Signal-level wrappers on objects analysed while holding another record and then changed through the public API; int8 / int16 / int32 counts; flags and tolerances as python / numpy / int scalars. Units down to 1e-300 (products of neighbouring values underflow).",
-    "C13": "Cleaned-data delta entry point; full-range int8 / int16 counts incl. the most negative count in the power-law events; joint scaling exact to the relative floor. Units down to 1e-290; call history on the same record with other cut-offs, reference amplitudes and exponents.",
-    "C14": "Exactly band-limited records of whole-number counts held as int64 / int32 / int16 (Fourier resample) and integer-typed records in the interpolation events; decimation ratios 49 .. 187; whole-period clause.",
-    "C15": "Dominant-frequency trace also in extreme units (2^-560, 2^515). Both implementations on the same array in either order; lengths whose half is m*2^e or one more through both implementations.",
-    "C16": "Empty and blanks-only labels, padded and non-ASCII labels, multipliers 0.01 .. 9.81 and negative. Loader history (load, overwrite what was returned, load again); whole-number records incl. multiples of 10, 100, 1000. Histories as a state machine (FileStore.tla: what every path currently holds; Save / Load / Scribble): 100 / 600 -simulate behaviours of 12 / 18 operations over 2 paths x 3 contents replayed on real files through the ten entry points, every load validated by Trace_FileStore against the file the model holds.",
-    "C17": "Adders on full-range int8 / uint8 / int16 / uint16 / int32 records with whole-number constants, count series and count signals (AddElementwise); integer record = float record for the filter; 20001-sample degree-4 detrend. A call on another record just before with corners a few 1e-2 .. 1e-4 away (each call designs the filter for its own corners).",
-    "C18": "The cluster object as a state machine (ClusterObj.tla): MC_ClusterObj generates every interleaving of set_master / time_match / same_start / component add_constant / component replacement (two operations deep from 3 / 14 exact clusters, k = 2..4) with the model properties AlignedAfterSameStart, AlignKeepsMaster, LagIsMinimiser, SameStartIdempotent, and every transition is executed on a real Cluster built in that state (successor must be one of the model's); 40 / 400 -simulate behaviours of 9 / 14 operations replayed on one object each; 14 / 90 sessions on real float clusters validated by Trace_ClusterObj, which carries the model state from event to event. master_index reassigned after construction; records on levels up to 1e8 (level / change up to 1e9); narrow-integer clusters; windows of all four kinds inside the record. Re-scan after the components were changed through the public API.",
-    "C19": "get_time_shift_motions of every energy event against the acceleration series of the definition (ShiftedWaveDefinition); start=True rows must be the start=False rows delayed by a whole number of samples within one of (stt - tt)/dt; records as int8 / int16 / int32 / uint8 / float32 with whole-number reduction factors as python / numpy integers.",
-    "C20": "Tables of whole numbers as uint8 / int8 / uint16 / int16 / uint32 / int64; integer nodes with negative fractional queries; first / last sample as split. Evenly and almost evenly spaced nodes with queries one ulp and 1e-10 spacings on either side of nodes.",
+    "C01": "Records also as int64 / int32 / int16 / int8 / uint8 counts and float32, through all three entry points. Repeated calls after the caller overwrote the series returned earlier (object with its own periods, periods passed, module function). One large job (4200 x 1001 periods with a leading zero period: four rows validated); records timed in nanoseconds; open finding C01-extreme-time-unit (dt = 1e-110 / 1e110) exercised on every run.",
+    "C03": "Narrow-integer count records containing the type's most negative count on both sides of 6 dt (PgaBelow6dt). Used objects: spectra read lazily, then the generator called with min_dt_ratio only (the step rule of that call applies). One large object job (2300 samples x 1000 periods: rows validated against the step rule of the whole list); another period list with the same ends asked of the same object.",
+    "C04": "Cluster sessions (Trace_ClusterObj): reads of the components' derived quantities after the cluster replaced their values (time_match, same_start, combine_motions, component changes). Value sessions: every baseline correction, filter and detrending step also carries the record left by the same call on a freshly constructed object (clause Havoc_<op>_history: what an operation does may not depend on earlier reads), incl. timezone forms. Settings pairs: every ordered pair of 11 / 15 forms of changing smoothing frequencies / response periods (same-count arrays incl. the default count, by-range forms, in-place edits, generator keywords) with everything read before, between and after. Value sessions also read s_d / s_a lazily per period (clause Read_response_spectrum: the spectra of the model's record under the refinement rule, Spectra.ObjectSpectrumOK) around response-period changes. Long-record pass of the settings pairs; tables that print identically.",
+    "C05": "Ownership model also has the caller writing into a returned time axis and the windowed (timezone) residual correction; the observable digest covers about 160 entries incl. results changed in place. The caller's ndarray handed over read-only every other time, a read-only variant of every pure call; the first result stays intact after later calls (ResultIntact).",
+    "C06": "Dominant period also for records in extreme units (2^-560 .. 2^520: squares leave the double range, the spec's modulus is hypot). Byte-twin records (same raw bytes, other dtype / length) one after the other; spectra re-read after in-place changes of the record (.values edited and handed back, residual corrections, re-basing).",
+    "C07": "Spectra on the caller's own axes (octave bands, log-spaced with ratio > 2, irregular, no zero bin) and whole-number targets held in integer types, array level and setter. Object histories: the generator called again with other targets of the same count / another bandwidth / after the record changed. Spectrum regenerated with transform lengths 2m and 2m + 1 between two smoothings.",
+    "C08": "Records as int8 / int16 / int32 / uint8 counts incl. the type's most negative count (PeakIsMaxAbs); magnitudes 2^-560 .. 2^520. Records held in single / half precision riding on an offset. In-place change histories (.values edited and handed back, residual corrections, re-basing after the rectangle rule).",
+    "C09": "Records as narrow-integer counts incl. the type's most negative count; the deprecated object-level generator with history; exact monotonicity. Standardised CAV with the statement's samples per second and windows (round(1/dt), (n-1)//pps) incl. rates whose reciprocal falls just below a whole number (1/93 .. 1/490); used objects for every second standardised-CAV event. Byte-twin count records; other public functions applied to the same object just before (noise histories).",
+    "C10": "Narrow-integer counts with the most negative count bracketing the motion; weak-motion records (1e-9 .. 1e-4); a 'no duration' answer without raising is validated like the IndexError (RaisesOnlyIfEmpty); non-monotone user measures. float32 / float16 records whose bracketing samples equal the threshold rounded to the record's type. Used objects that were corrected over a time window before they got their record; noise histories.",
+    "C11": "Cleaned-array entry point on full-range int8 / uint8 / int16 / uint16 plateau-free counts; signal-level wrapper on objects that held another record before. Records in extremely small units (1e-170 .. 1e-300: products of neighbouring steps underflow). Noise histories (other public functions on the same container just before, results overwritten); zero-start downward series with the peaks-only series first; swings across the whole double range next to ulp-sized movements.",
+    "C12": "Signal-level wrappers on objects analysed while holding another record and then changed through the public API; int8 / int16 / int32 counts; flags and tolerances as python / numpy / int scalars. Units down to 1e-300 (products of neighbouring values underflow). More than 160 decades of dynamic range inside one series; noise histories.",
+    "C13": "Cleaned-data delta entry point; full-range int8 / int16 counts incl. the most negative count in the power-law events; joint scaling exact to the relative floor. Units down to 1e-290; call history on the same record with other cut-offs, reference amplitudes and exponents. Index arrays and series handed out by other functions overwritten by the caller just before; one 66 000-sample record through the laws between results.",
+    "C14": "Exactly band-limited records of whole-number counts held as int64 / int32 / int16 (Fourier resample) and integer-typed records in the interpolation events; decimation ratios 49 .. 187; whole-period clause. The response spectra's own refinement step after the spectra were read; a 20 014-sample record (prime factor 10 007); even=True on large decimation ratios; noise histories.",
+    "C15": "Dominant-frequency trace also in extreme units (2^-560, 2^515). Both implementations on the same array in either order; lengths whose half is m*2^e or one more through both implementations. Byte-twin records; Gaussian windows handed out and overwritten by the caller just before.",
+    "C16": "Empty and blanks-only labels, padded and non-ASCII labels, multipliers 0.01 .. 9.81 and negative. Loader history (load, overwrite what was returned, load again); whole-number records incl. multiples of 10, 100, 1000. Histories as a state machine (FileStore.tla: what every path currently holds; Save / Load / Scribble): 100 / 600 -simulate behaviours of 12 / 18 operations over 2 paths x 3 contents replayed on real files through the ten entry points, every load validated by Trace_FileStore against the file the model holds. Files of 8 193 .. 20 001 samples; labels that read like numbers.",
+    "C17": "Adders on full-range int8 / uint8 / int16 / uint16 / int32 records with whole-number constants, count series and count signals (AddElementwise); integer record = float record for the filter; 20001-sample degree-4 detrend. A call on another record just before with corners a few 1e-2 .. 1e-4 away (each call designs the filter for its own corners). Detrending an object already detrended to the same or a higher degree and then changed in place.",
+    "C18": "The cluster object as a state machine (ClusterObj.tla): MC_ClusterObj generates every interleaving of set_master / time_match / same_start / component add_constant / component replacement (two operations deep from 3 / 14 exact clusters, k = 2..4) with the model properties AlignedAfterSameStart, AlignKeepsMaster, LagIsMinimiser, SameStartIdempotent, and every transition is executed on a real Cluster built in that state (successor must be one of the model's); 40 / 400 -simulate behaviours of 9 / 14 operations replayed on one object each; 14 / 90 sessions on real float clusters validated by Trace_ClusterObj, which carries the model state from event to event. master_index reassigned after construction; records on levels up to 1e8 (level / change up to 1e9); narrow-integer clusters; windows of all four kinds inside the record. Re-scan after the components were changed through the public API. Angles and offsets as int8 / uint8 / int16 / uint16 / int32 / float32 scalars; a drift-dominated cluster of more than 8192 samples in every run; open finding C18-time-match-tiny-units exercised on every run.",
+    "C19": "get_time_shift_motions of every energy event against the acceleration series of the definition (ShiftedWaveDefinition); start=True rows must be the start=False rows delayed by a whole number of samples within one of (stt - tt)/dt; records as int8 / int16 / int32 / uint8 / float32 with whole-number reduction factors as python / numpy integers. Noise histories incl. the rectangle rule on the object just before; a 4000-row batch (sampled rows over their whole width).",
+    "C20": "Tables of whole numbers as uint8 / int8 / uint16 / int16 / uint32 / int64; integer nodes with negative fractional queries; first / last sample as split. Evenly and almost evenly spaced nodes with queries one ulp and 1e-10 spacings on either side of nodes. Default split right after the error of another series with the same ends; thorough tier: a 5800-sample step-fit at sampled splits.",
 }
 for _pid, _extra in APPEND.items():
     CHECKS[_pid]["text"] = CHECKS[_pid]["text"].rstrip() + " " + _extra
